@@ -253,9 +253,9 @@ fn gen_case(r: &mut Rng, p: &Params, out: &mut Vec<String>) {
         if roll < 39 {
             // a protocol violation; must be rejected without effect
             let which = if in_block {
-                *r.pick(&["idx", "ts", "hash", "fincount", "commitmid", "reorgmid", "minemid", "bothfields", "nofield", "badpk"])
+                *r.pick(&["idx", "ts", "hash", "fincount", "commitmid", "reorgmid", "minemid", "bothfields", "bothempty", "nofield", "badpk"])
             } else {
-                *r.pick(&["idx", "duphash", "duphash", "duphash", "dupfin", "fincount", "bothfields", "nofield", "badpk", "initagain"])
+                *r.pick(&["idx", "duphash", "duphash", "duphash", "dupfin", "fincount", "bothfields", "bothempty", "nofield", "badpk", "initagain"])
             };
             let hash = if in_block { block_hash } else { 1_000_000 + g.hash + 1 };
             let ts = if in_block { g.ts } else { g.ts + 600 };
@@ -326,7 +326,8 @@ fn gen_case(r: &mut Rng, p: &Params, out: &mut Vec<String>) {
                     let c = *r.pick(&cands);
                     (c.0.clone(), call_data(r, &c.1))
                 };
-                let wrong_chain = r.chance(4);
+                let no_chain = r.chance(3);   // signed without a chain id (pre EIP-155): ignored like a foreign chain
+                let wrong_chain = no_chain || r.chance(4);
                 let junk = r.chance(3);
                 let mut appended = 0;
                 if !wrong_chain && !junk {
@@ -348,8 +349,13 @@ fn gen_case(r: &mut Rng, p: &Params, out: &mut Vec<String>) {
                 }
                 out.push(format!(
                     "transact signer={} nonce={} to={} data={} {} len={} txid={} field={} chain={} junk={} exp={}",
-                    s, nonce, to, hex::encode(&data), base, 60_000 + r.below(50_000), txid, field, if wrong_chain { "wrong" } else { "ok" }, junk, appended
+                    s, nonce, to, hex::encode(&data), base, 60_000 + r.below(50_000), txid, field, if no_chain { "none" } else if wrong_chain { "wrong" } else { "ok" }, junk, appended
                 ));
+                // the waiting set right after a drain (always) or any other signed submission (sometimes)
+                if appended >= 2 || r.chance(30) {
+                    let exp: Vec<String> = g.pool.keys().map(|(s, n)| format!("{}.{}", s, n)).collect();
+                    out.push(format!("read kind=txpool expect={}", if exp.is_empty() { "-".to_string() } else { exp.join(",") }));
+                }
                 appended
             }
         };
@@ -432,7 +438,11 @@ fn gen_read(r: &mut Rng, g: &GenState) -> String {
             };
             format!("read kind=logs from={} to={} addr={} topics={}", from_s, to_s, addr, if topics.is_empty() { "none".to_string() } else { topics.join(",") })
         }
-        2 => "read kind=txpool".into(),
+        2 => {
+            // the waiting set the reference pool expects (signer.nonce, ...)
+            let exp: Vec<String> = g.pool.keys().map(|(s, n)| format!("{}.{}", s, n)).collect();
+            format!("read kind=txpool expect={}", if exp.is_empty() { "-".to_string() } else { exp.join(",") })
+        }
         3 | 4 => {
             // eth_call running state-changing code
             let cands: Vec<&(String, String)> = g.contracts.iter().filter(|c| c.1 != "controller").collect();
@@ -511,8 +521,9 @@ struct Ctx {
     height: Option<u64>,
     chain_id: u64,
     kinds: BTreeMap<String, String>, // inscription id of a deploy -> contract kind
-    inscribed_len: BTreeMap<(String, u64), u64>, // (signer address, nonce) -> inscription length of the latest submission
-    signed_txid: BTreeMap<(String, u64), String>, // (signer address, nonce) -> Bitcoin txid supplied with the latest submission
+    /// (signer address, nonce) -> every accepted submission of that nonce: (inscription length, Bitcoin txid). Which one
+    /// is waiting depends on clears and rollbacks in between; a transaction that runs must be one of them.
+    submissions: BTreeMap<(String, u64), Vec<(u64, String)>>,
     /// tx hashes handed out more than once (known finding F11), with the blocks they were reported in
     dup_blocks: BTreeSet<u64>,
     /// a handler panicked: the shipped binary would have aborted, nothing after that point is compared
@@ -580,7 +591,11 @@ fn raw_tx_for(ctx: &Ctx, f: &BTreeMap<String, String>) -> Vec<u8> {
     }
     let s = Signer::new(f.get("signer").and_then(|s| s.parse().ok()).unwrap_or(1));
     let nonce = f.get("nonce").and_then(|s| s.parse().ok()).unwrap_or(0);
-    let chain = if f.get("chain").map(|s| s == "wrong").unwrap_or(false) { Some(1) } else { Some(ctx.chain_id) };
+    let chain = match f.get("chain").map(|s| s.as_str()) {
+        Some("wrong") => Some(1),
+        Some("none") => None,
+        _ => Some(ctx.chain_id),
+    };
     let to = f.get("to").cloned().unwrap_or_default();
     if let Some(kind) = to.strip_prefix("create:") {
         s.raw_tx(chain, nonce, None, &code_for(kind))
@@ -750,7 +765,7 @@ pub fn exec(lines: &[String], out: &mut Out, scratch: &Path) {
                 chain_id: v::CONFIG.read().chain_id,
                 dup_blocks: BTreeSet::new(),
                 kinds: BTreeMap::new(),
-                inscribed_len: BTreeMap::new(), signed_txid: BTreeMap::new(), dead: false,
+                submissions: BTreeMap::new(), dead: false,
             });
             continue;
         }
@@ -980,8 +995,7 @@ fn on_accepted(ctx: &mut Ctx, op: &str, f: &BTreeMap<String, String>, resp: &Res
         let me = format!("{:?}", signer.address()).to_lowercase();
         if let (Some(n), Some(l)) = (f.get("nonce").and_then(|s| s.parse::<u64>().ok()), f.get("len").and_then(|s| s.parse::<u64>().ok())) {
             if f.get("chain").map(|s| s == "ok").unwrap_or(false) && f.get("junk").map(|s| s == "false").unwrap_or(false) {
-                ctx.inscribed_len.insert((me.clone(), n), l);
-                ctx.signed_txid.insert((me.clone(), n), f.get("txid").cloned().unwrap_or_default());
+                ctx.submissions.entry((me.clone(), n)).or_default().push((l, f.get("txid").cloned().unwrap_or_default()));
             }
         }
         for r in &receipts {
@@ -989,9 +1003,9 @@ fn on_accepted(ctx: &mut Ctx, op: &str, f: &BTreeMap<String, String>, resp: &Res
                 let hexn = |v: &Value| v.as_str().map(|s| u64::from_str_radix(s.trim_start_matches("0x"), 16).unwrap_or(u64::MAX));
                 let from = tx["from"].as_str().unwrap_or("").to_lowercase();
                 if let (Some(n), Some(gas)) = (hexn(&tx["nonce"]), hexn(&tx["gas"])) {
-                    if let Some(l) = ctx.inscribed_len.get(&(from.clone(), n)) {
-                        if gas != l.saturating_mul(12000) {
-                            out.oracle_fail(&case, "pool-gas", &format!("signed tx of {} nonce {} was inscribed with {} bytes but runs with a gas allowance of {}", from, n, l, gas));
+                    if let Some(subs) = ctx.submissions.get(&(from.clone(), n)) {
+                        if !subs.iter().any(|(l, _)| gas == l.saturating_mul(12000)) {
+                            out.oracle_fail(&case, "pool-gas", &format!("signed tx of {} nonce {} was inscribed with {:?} bytes but runs with a gas allowance of {}", from, n, subs.iter().map(|s| s.0).collect::<Vec<_>>(), gas));
                         }
                     }
                 }
@@ -1138,7 +1152,16 @@ fn check_probe(ctx: &Ctx, op: &str, f: &BTreeMap<String, String>, resp: &Resp, o
         let Some(tx) = rc["transactionHash"].as_str().and_then(|h| ctx.main.call("eth_getTransactionByHash", json!([h])).ok) else { return };
         let from = tx["from"].as_str().unwrap_or("").to_lowercase();
         let nonce = tx["nonce"].as_str().and_then(|s| u64::from_str_radix(s.trim_start_matches("0x"), 16).ok()).unwrap_or(u64::MAX);
-        let Some(txid) = ctx.signed_txid.get(&(from.clone(), nonce)).cloned() else { return };
+        // the submission that is running: the one whose inscription length gives this transaction's gas allowance
+        let gas = tx["gas"].as_str().and_then(|s| u64::from_str_radix(s.trim_start_matches("0x"), 16).ok()).unwrap_or(0);
+        let cands: Vec<String> = ctx.submissions.get(&(from.clone(), nonce)).map(|v| v.iter().filter(|(l, _)| l.saturating_mul(12000) == gas).map(|(_, t)| t.clone()).collect()).unwrap_or_default();
+        let mut cands = cands;
+        cands.sort();
+        cands.dedup();
+        if cands.len() != 1 {
+            return; // none: reported as pool-gas; several with the same length: cannot tell them apart
+        }
+        let txid = cands[0].clone();
         let sender = format!("{:0>64}", from.trim_start_matches("0x"));
         check_probe_slots(ctx, &to, ts, &hash, sender, &txid, if rcs.len() > 1 { "drained parked tx" } else { "signed tx" }, out);
         return;
@@ -1566,6 +1589,11 @@ fn exec_bad(ctx: &mut Ctx, f: &BTreeMap<String, String>, out: &mut Out) {
             let (m, p) = dep(ts, &hash, idx, json!(code), json!("AA"), PKS[0]);
             (m, p, true, flat(ts, &hash, idx, "both", true))
         }
+        "bothempty" => {
+            // both encodings present, the base64 one empty: still both
+            let (m, p) = dep(ts, &hash, idx, json!(code), json!(""), PKS[0]);
+            (m, p, true, flat(ts, &hash, idx, "both", true))
+        }
         "nofield" => {
             let (m, p) = dep(ts, &hash, idx, Value::Null, Value::Null, PKS[0]);
             (m, p, true, flat(ts, &hash, idx, "none", true))
@@ -1729,6 +1757,41 @@ fn exec_read(ctx: &mut Ctx, f: &BTreeMap<String, String>, out: &mut Out) {
             let (r, e) = run_on(&ctx.main, "txpool_content", &json!([]));
             events_all.extend(e);
             answer = if r.is_ok() { "ok".into() } else { "err".into() };
+            // C08: txpool_content shows exactly the waiting set
+            if let (Some(exp), Some(got)) = (f.get("expect"), r.ok.as_ref()) {
+                let mut want: BTreeSet<(String, u64)> = BTreeSet::new();
+                if exp != "-" {
+                    for e in exp.split(',') {
+                        let mut p = e.split('.');
+                        let s: u8 = p.next().and_then(|x| x.parse().ok()).unwrap_or(0);
+                        let n: u64 = p.next().and_then(|x| x.parse().ok()).unwrap_or(0);
+                        want.insert((format!("{:?}", Signer::new(s).address()).to_lowercase(), n));
+                    }
+                }
+                let mut have: BTreeSet<(String, u64)> = BTreeSet::new();
+                if let Some(m) = got["pending"].as_object() {
+                    for (a, txs) in m {
+                        if let Some(t) = txs.as_object() {
+                            for n in t.keys() {
+                                have.insert((a.to_lowercase(), n.parse().unwrap_or(u64::MAX)));
+                            }
+                        }
+                    }
+                }
+                if want != have {
+                    out.oracle_fail(&case, "pool-content", &format!("txpool_content lists {:?}, the reference pool holds {:?}", have, want));
+                }
+                out.count("pool-content-checked");
+                // and per sender
+                for (a, _) in want.iter().chain(have.iter()) {
+                    let (rf, _) = run_on(&ctx.main, "txpool_contentFrom", &json!([a]));
+                    let hv: BTreeSet<u64> = rf.ok.as_ref().and_then(|v| v["pending"].as_object().cloned()).map(|m| m.values().flat_map(|t| t.as_object().map(|o| o.keys().map(|k| k.parse().unwrap_or(u64::MAX)).collect::<Vec<_>>()).unwrap_or_default()).collect()).unwrap_or_default();
+                    let wv: BTreeSet<u64> = want.iter().filter(|w| &w.0 == a).map(|w| w.1).collect();
+                    if hv != wv {
+                        out.oracle_fail(&case, "pool-content", &format!("txpool_contentFrom({}) lists nonces {:?}, the reference pool holds {:?}", a, hv, wv));
+                    }
+                }
+            }
         }
         "ethcall" | "estimate" => {
             if lbi_waiting != 0 {
@@ -1989,7 +2052,7 @@ pub fn exec_locks(lines: &[String], out: &mut Out, scratch: &Path, out_dir: &Pat
                 case: line.split(' ').nth(1).unwrap_or("?").to_string(), history: Vec::new(), labels: BTreeMap::new(),
                 known_addrs: BTreeSet::new(), known_hashes: Vec::new(), receipts: BTreeMap::new(), insc_of: BTreeMap::new(),
                 height: None, chain_id: v::CONFIG.read().chain_id, dup_blocks: BTreeSet::new(), kinds: BTreeMap::new(),
-                inscribed_len: BTreeMap::new(), signed_txid: BTreeMap::new(), dead: false,
+                submissions: BTreeMap::new(), dead: false,
             });
             out.case(line.split(' ').nth(1).unwrap_or("?"));
             continue;
@@ -2048,7 +2111,7 @@ fn fresh_ctx(main: Inst, twin: Inst, rt: &Arc<tokio::runtime::Runtime>, scratch:
         main, twin, twin_mode: 0, rt: rt.clone(), scratch: scratch.to_path_buf(), n_inst, case: case.to_string(),
         history: Vec::new(), labels: BTreeMap::new(), known_addrs: BTreeSet::new(), known_hashes: Vec::new(),
         receipts: BTreeMap::new(), insc_of: BTreeMap::new(), height: None, chain_id: v::CONFIG.read().chain_id,
-        dup_blocks: BTreeSet::new(), kinds: BTreeMap::new(), inscribed_len: BTreeMap::new(), signed_txid: BTreeMap::new(), dead: false,
+        dup_blocks: BTreeSet::new(), kinds: BTreeMap::new(), submissions: BTreeMap::new(), dead: false,
     }
 }
 
